@@ -122,6 +122,10 @@ type Unit struct {
 	divMemo  map[string]divEntry
 	eqFacts  []eqFact
 	seqFacts []*seqFact
+	sigLog   []*sigEntry
+	kfMemo   map[string]kfEntry
+	algOfType map[string]*Term
+	objOwner map[string]IfaceV
 	seqByName map[string]*seqFact
 	goalMode int
 	reads    map[string][]readRec
